@@ -74,6 +74,21 @@ for m in out:
     code = (cb.get(pid) or ["-"])[0]
     also = ", ".join(k for k in sorted(cb) if k != pid) or "-"
     lines.append(f"| {m['name']} | {prim} | `{code}` | {also} |")
+lines.append("")
+lines.append("Changes the primary check does not report, and why (none of them was made to pass by loosening anything):")
+lines.append("")
+lines.append("* **C01-w2m2** (`hex_len` treats 4096 as three digits): needs a request-body write with exactly 4103 bytes of output")
+lines.append("  space and >= 4096 bytes offered. That is C19's territory and C19 reports it (`C19.no_progress`); C01's buffer")
+lines.append("  policies draw sizes from 0..12, 13..80, 0..12000 and 64 KiB and hit 4103 with probability ~1e-4 per call.")
+lines.append("* **C09-w2m1** (body-less method with `content-length: 0` accepted, then `proceed()` panics): C09 walks only requests")
+lines.append("  that C17 accepts, so the walk never builds that request; C17 reports it (`C17.invalid_accepted`).")
+lines.append("* **C14-w2m1** (`Location: http:foo`, scheme without `//`): RFC 3986 and the WHATWG URL rules disagree on this form, so it")
+lines.append("  is outside the grammar C14 generates (section 7); the weak garbage-class oracle accepts the result because the host")
+lines.append("  it produces occurs literally in the value.")
+lines.append("* **C14-w2m2** (a stale Location kept from an interim 1xx head when the final 3xx has none): needs two response heads on")
+lines.append("  one flow, the first a non-100 1xx carrying a Location; no scenario sends unsolicited 1xx heads with a Location.")
+lines.append("* **C17-w2m2** (extension methods such as PROPFIND, or lower-case `get`, accepted on HTTP/1.1): C17's quantifier is over")
+lines.append("  the standard methods; extension tokens are not generated.")
 sec = "\n".join(lines) + "\n"
 p = os.path.join(VERIF, "DESIGN.md")
 s = open(p).read()
